@@ -76,7 +76,8 @@ type travModel struct {
 	codeIfc                      map[*types.Named]bool // Expression / Statement interfaces of both families
 	structs                      map[*types.Named]*travStruct
 	byKind                       map[*types.Const]*travStruct
-	decls                        map[*types.Func]*travDecl // every function body of the module
+	byKindAll                    map[*types.Const][]*travStruct // every struct whose Kind() returns the constant
+	decls                        map[*types.Func]*travDecl      // every function body of the module
 	memoCode, memoType, memoName map[types.Type]int
 }
 
@@ -107,7 +108,7 @@ func travNamed(t types.Type) *types.Named {
 
 func travBuildModel(c *Ctx) *travModel {
 	m := &travModel{c: c, pP: c.Pkg("homescript/parser/ast"), pA: c.Pkg("homescript/analyzer/ast"),
-		codeIfc: map[*types.Named]bool{}, structs: map[*types.Named]*travStruct{}, byKind: map[*types.Const]*travStruct{},
+		codeIfc: map[*types.Named]bool{}, structs: map[*types.Named]*travStruct{}, byKind: map[*types.Const]*travStruct{}, byKindAll: map[*types.Const][]*travStruct{},
 		decls: map[*types.Func]*travDecl{}, memoCode: map[types.Type]int{}, memoType: map[types.Type]int{}, memoName: map[types.Type]int{}}
 	for _, p := range c.All {
 		for _, fd := range AllFuncDecls(p) {
@@ -299,8 +300,10 @@ func travBuildModel(c *Ctx) *travModel {
 	for n, s := range m.structs {
 		s.IsSem = types.Implements(n, semI) || types.Implements(types.NewPointer(n), semI)
 	}
-	// kinds: Kind() methods whose body is `return <Const>`
-	for n, s := range m.structs {
+	// kinds: Kind() methods whose body is `return <Const>` (in a fixed order: two structs that
+	// claim the same kind are both recorded in byKindAll, byKind keeps the first by name)
+	for _, s := range m.sortedStructs() {
+		n := s.T
 		for i := 0; i < n.NumMethods(); i++ {
 			f := n.Method(i)
 			if f.Name() != "Kind" {
@@ -313,7 +316,10 @@ func travBuildModel(c *Ctx) *travModel {
 			if rs, ok := d.Fd.Body.List[0].(*ast.ReturnStmt); ok && len(rs.Results) == 1 {
 				if k := ConstOf(d.Pkg.TypesInfo, rs.Results[0]); k != nil {
 					s.Kind = k
-					m.byKind[k] = s
+					if m.byKind[k] == nil {
+						m.byKind[k] = s
+					}
+					m.byKindAll[k] = append(m.byKindAll[k], s)
 				}
 			}
 		}
@@ -603,6 +609,49 @@ func (m *travModel) buildTwins(an *packages.Package) {
 		n, _ := t.(*types.Named)
 		return n
 	}
+	// strong partners: equal Kind() constant names, or the Analyzed name prefix. A function
+	// signature that contradicts one (a helper extracted from the analysis of P that returns a
+	// component of the analyzed node, e.g. thenBranch(IfExpression) AnalyzedBlock) does not pair.
+	strong := map[*travStruct]*travStruct{}
+	{
+		// (sorted order; a kind name claimed by two structs of one family is no evidence)
+		pByKind, pByName := map[string]*travStruct{}, map[string]*travStruct{}
+		kindClaims := map[string]int{}
+		all := m.sortedStructs()
+		for _, s := range all {
+			if s.Kind != nil {
+				fam := "A|"
+				if m.inP(s.T) {
+					fam = "P|"
+				}
+				kindClaims[fam+s.Kind.Name()]++
+			}
+			if m.inP(s.T) {
+				pByName[s.Short()] = s
+				if s.Kind != nil && pByKind[s.Kind.Name()] == nil {
+					pByKind[s.Kind.Name()] = s
+				}
+			}
+		}
+		for _, s := range all {
+			if !m.inA(s.T) {
+				continue
+			}
+			var p *travStruct
+			if s.Kind != nil && kindClaims["A|"+s.Kind.Name()] == 1 && kindClaims["P|"+s.Kind.Name()] == 1 {
+				p = pByKind[s.Kind.Name()]
+			}
+			if p == nil && strings.HasPrefix(s.Short(), "Analyzed") {
+				p = pByName[strings.TrimPrefix(s.Short(), "Analyzed")]
+			}
+			if p != nil {
+				strong[s] = p
+				if _, dup := strong[p]; !dup {
+					strong[p] = s
+				}
+			}
+		}
+	}
 	var fns []*types.Func
 	for fn := range m.decls {
 		if fn.Pkg() == an.Types {
@@ -628,20 +677,19 @@ func (m *travModel) buildTwins(an *packages.Package) {
 			}
 		}
 		if cnt == 1 {
+			if (strong[a] != nil && strong[a] != p) || (strong[p] != nil && strong[p] != a) {
+				continue
+			}
 			set(a, p, "analyzer."+fn.Name()+" maps "+p.Short()+" to "+a.Short())
 		}
 	}
+	names := m.sortedStructs()
 	byKindName := map[string]*travStruct{}
-	for _, s := range m.structs {
-		if s.Kind != nil && m.inP(s.T) {
-			byKindName[s.Kind.Name()] = s
+	for _, s := range names {
+		if s.Kind != nil && m.inP(s.T) && byKindName[s.Kind.Name()] == nil {
+			byKindName[s.Kind.Name()] = s // (two parser structs with one kind: the first by name, deterministically)
 		}
 	}
-	var names []*travStruct
-	for _, s := range m.structs {
-		names = append(names, s)
-	}
-	sort.Slice(names, func(i, j int) bool { return names[i].Name() < names[j].Name() })
 	for _, s := range names {
 		if m.inA(s.T) && s.Kind != nil && s.Twin == nil {
 			set(s, byKindName[s.Kind.Name()], "equal kind constant name "+s.Kind.Name())
